@@ -53,6 +53,12 @@ fn child(case: &str) {
     let text = build_text(&c);
     let level = level_of(c["level"].as_str().unwrap());
     let doc = c["doc"].as_bool().unwrap_or(true);
+    // never outlive the budget, even if the parent was killed (a non-terminating parse must not be orphaned)
+    let budget = c["budget_ms"].as_u64().unwrap_or(20000) + 5000;
+    std::thread::spawn(move || {
+        std::thread::sleep(Duration::from_millis(budget));
+        std::process::exit(4);
+    });
     let h = std::thread::Builder::new()
         .stack_size(STACK)
         .spawn(move || {
